@@ -519,7 +519,8 @@ class FMMetrics(Metrics):  # pylint: disable=too-many-instance-attributes
         name = "Cardinality groups"
         _group_features = [f.name for f in self._features if f.is_group()]
         _cardinality_groups = [
-            f.name for f in self._features if f.is_cardinality_group()
+            f.name for f in self._features
+            if any(r.is_group() and r.is_cardinal() for r in f.get_relations())
         ]
         result = self.construct_result(
             name=name,
